@@ -1,1 +1,261 @@
-/-! STUB — property C19 is not built yet. -/
+import Martian.Lemmas.Marbl
+import Martian.Generated.Marbl
+/-!
+C19 — marbl streams decode to the logged messages with intact, ordered bodies.
+Only property theorems and non-vacuity examples live here.
+Quantifiers: every frame / every list of frames (any lengths below 2^32, any bytes), every byte
+string fed to the reader, every list of read results of the wrapped body, every interleaving
+(`Shuffle`) of the frame sequences of any number of concurrently logged messages.
+-/
+namespace Martian.Props.C19
+open Martian Martian.Marbl
+
+/-! ## facts regenerated from /repo on every check -/
+
+/-- The constants the model hard-codes are the ones in the source now: frame type codes (`frameHead 1`
+/ `frameHead 2`, the dispatch of `readFrameWith`), message type codes (the driver's `mt`), the
+fixed-size reads of `ReadFrame` (10, 8, 9) and the fact that the header name/value buffer is sized
+by `int(nl)+int(vl)` (`readFrame := readFrameWith sumInt`). An edit of any of them breaks this
+check (finite table, by `decide`). -/
+theorem facts_marbl_layout :
+    (Generated.Marbl.headerFrame, Generated.Marbl.dataFrame, Generated.Marbl.request, Generated.Marbl.response,
+      Generated.Marbl.fixedReads, Generated.Marbl.headerSumWidened) = (1, 2, 1, 2, [10, 8, 9], true) := by
+  decide
+
+/-! ## codec: decode ∘ encode = id -/
+
+/-- A header frame written by `sendHeader` is read back by `ReadFrame` as the same frame, and the
+reader is left exactly at the next frame. (With the repaired reader no bound on the *sum* of the
+two lengths is needed.) -/
+theorem decode_encode_header (mt : UInt8) (id name value rest : Bytes)
+    (hid : id.length = 8) (hn : name.length < two32) (hv : value.length < two32) :
+    readFrame (encode (.header mt id name value) ++ rest) = .ok (.header mt id name value) rest :=
+  readFrame_encode (.header mt id name value) ⟨hid, hn, hv⟩ rest
+
+/-- A data frame written by `sendData` is read back as the same frame (index, terminal flag, bytes). -/
+theorem decode_encode_data (mt : UInt8) (id : Bytes) (i : Nat) (t : Bool) (p rest : Bytes)
+    (hid : id.length = 8) (hi : i < two32) (hp : p.length < two32) :
+    readFrame (encode (.data mt id i t p) ++ rest) = .ok (.data mt id i t p) rest :=
+  readFrame_encode (.data mt id i t p) ⟨hid, hi, hp⟩ rest
+
+example : (Frame.header 1 (strBytes "abcdefgh") (strBytes ":method") (strBytes "GET")).Valid := by decide
+example : (Frame.data 2 (strBytes "abcdefgh") 0 true []).Valid := by decide
+
+/-! ## the reader never panics -/
+
+/-- `ReadFrame` returns a frame or an error on every byte string; the slice-bounds panic of the
+model is unreachable. -/
+theorem reader_total (bs : Bytes) : readFrame bs ≠ .panic :=
+  readFrameWith_sumInt_ne_panic bs
+
+/-- A consumer looping on `ReadFrame` always ends with an error value (EOF, unexpected EOF, unknown
+frame type) after finitely many frames: never a panic, never an endless loop. -/
+theorem reader_loop_ends_with_error (bs : Bytes) : ∃ e, (readAll bs).2 = .err e :=
+  readAllFuel_stop (bs.length + 1) bs (Nat.lt_succ_self _)
+
+/-- Regression witness for F19 (test on a concrete input): with the 32-bit sum `int(nl+vl)` that
+the code had before the repair, name length 0xFFFFFFFF + value length 2 wraps to 1 and the reader
+reaches `nv[:nl]` with `nl > len(nv)` — the model's `panic`. -/
+theorem F19_wrapped_sum_panics :
+    readFrameWith sumU32 ([1, 1] ++ strBytes "abcdefgh" ++ [255, 255, 255, 255, 0, 0, 0, 2] ++ strBytes "xyz") = .panic := by
+  decide
+
+/-- …and the same bytes are an ordinary error for the repaired reader. -/
+theorem F19_witness_now_error :
+    readFrame ([1, 1] ++ strBytes "abcdefgh" ++ [255, 255, 255, 255, 0, 0, 0, 2] ++ strBytes "xyz") = .err .unexpectedEOF := by
+  decide
+
+/-! ## whole streams and interleavings -/
+
+/-- Reading the concatenation of any list of whole frames returns exactly those frames, in order,
+and then `io.EOF`: no frame is torn, merged or lost, whatever messages the frames belong to. -/
+theorem stream_roundtrip (fs : List Frame) (hv : ∀ f ∈ fs, f.Valid) :
+    readAll (encodeAll fs) = (fs, .err .eof) :=
+  readAllFuel_encodeAll fs hv _ (Nat.lt_succ_self _)
+
+/-- Frames of concurrently logged messages: let `l` be any interleaving, at frame granularity, of the
+frame sequences `ms` of the messages. If message `i` owns key `k` (id, type) and no other message
+uses that key, the frames parsed back from the stream and projected on `k` are exactly the frames
+of message `i`, in the order it sent them. -/
+theorem interleaved_messages_recovered (ms : List (List Frame)) (l : List Frame) (hs : Shuffle ms l)
+    (hv : ∀ f ∈ l, f.Valid) (i : Nat) (k : Bytes × UInt8)
+    (hown : ∀ m, ms[i]? = some m → ∀ f ∈ m, f.key = k)
+    (hothers : ∀ (j : Nat) (m : List Frame), j ≠ i → ms[j]? = some m → ∀ f ∈ m, f.key ≠ k) :
+    (readAll (encodeAll l)).1.filter (fun f => f.key == k) = (ms[i]?).getD [] := by
+  rw [stream_roundtrip l hv]
+  have h1 := Shuffle.filter (fun f : Frame => f.key == k) hs
+  have h2 := Shuffle.single h1 i (by
+    intro j m hj hm
+    rw [List.getElem?_map] at hm
+    cases hmj : ms[j]? with
+    | none => rw [hmj] at hm; cases hm
+    | some m' =>
+      rw [hmj] at hm
+      simp only [Option.map_some, Option.some.injEq] at hm
+      rw [← hm, List.filter_eq_nil_iff]
+      intro f hf
+      simpa using hothers j m' hj hmj f hf)
+  rw [h2, List.getElem?_map]
+  cases hmi : ms[i]? with
+  | none => rfl
+  | some m =>
+    simp only [Option.map_some, Option.getD_some]
+    rw [List.filter_eq_self]
+    intro f hf
+    simpa using hown m hmi f hf
+
+/-! ## body logger -/
+
+/-- Data-frame indices are 0, 1, 2, … without gap or repeat (for fewer than 2^32 reads; the
+counter is a `uint32`). -/
+theorem data_indices_contiguous_from_zero (mt : UInt8) (id : Bytes) (rs : List ReadRes) (h : rs.length ≤ two32) :
+    (bodyRun mt id 0 rs).2.map Frame.index = List.range rs.length := by
+  rw [bodyRun_index mt id rs 0 (by omega), List.range_eq_range']
+
+/-- The concatenation of the data frames' payloads is the byte sequence the consumer read. -/
+theorem concat_data_eq_bytes_read (mt : UInt8) (id : Bytes) (rs : List ReadRes) :
+    ((bodyRun mt id 0 rs).2.map Frame.payload).flatten = (rs.map ReadRes.data).flatten := by
+  rw [bodyRun_payload]
+
+/-- Frame k is marked terminal exactly when read k returned `io.EOF`. -/
+theorem terminal_pointwise (mt : UInt8) (id : Bytes) (rs : List ReadRes) :
+    (bodyRun mt id 0 rs).2.map Frame.terminal = rs.map (fun r => r.err == .eof) :=
+  bodyRun_terminal mt id rs 0
+
+/-- The last data frame is terminal exactly when the last read reached end-of-file. -/
+theorem last_terminal_iff_eof (mt : UInt8) (id : Bytes) (rs : List ReadRes) :
+    ((bodyRun mt id 0 rs).2.getLast?).map Frame.terminal = (rs.getLast?).map (fun r => r.err == .eof) := by
+  rw [← List.getLast?_map, ← List.getLast?_map, terminal_pointwise]
+
+/-- Some frame is terminal iff the body reached end-of-file; and for a consumer that stops at
+the first error (all reads but the last return `nil`) that frame is the last one. -/
+theorem terminal_iff_eof (mt : UInt8) (id : Bytes) (rs : List ReadRes) :
+    ((∃ f ∈ (bodyRun mt id 0 rs).2, f.terminal = true) ↔ (∃ r ∈ rs, r.err = .eof)) ∧
+    ((∀ r ∈ rs.dropLast, r.err = .none) → ∀ f ∈ (bodyRun mt id 0 rs).2.dropLast, f.terminal = false) := by
+  have hp := terminal_pointwise mt id rs
+  constructor
+  · constructor
+    · rintro ⟨f, hf, ht⟩
+      have : true ∈ (bodyRun mt id 0 rs).2.map Frame.terminal := List.mem_map.mpr ⟨f, hf, ht⟩
+      rw [hp, List.mem_map] at this
+      obtain ⟨r, hr, he⟩ := this
+      exact ⟨r, hr, by simpa using he⟩
+    · rintro ⟨r, hr, he⟩
+      have : true ∈ rs.map (fun r => r.err == .eof) := List.mem_map.mpr ⟨r, hr, by simp [he]⟩
+      rw [← hp, List.mem_map] at this
+      obtain ⟨f, hf, ht⟩ := this
+      exact ⟨f, hf, ht⟩
+  · intro hd f hf
+    have hdl : (bodyRun mt id 0 rs).2.dropLast.map Frame.terminal = rs.dropLast.map (fun r => r.err == .eof) := by
+      rw [List.map_dropLast, List.map_dropLast, hp]
+    have : f.terminal ∈ rs.dropLast.map (fun r => r.err == .eof) := by
+      rw [← hdl]; exact List.mem_map.mpr ⟨f, hf, rfl⟩
+    rw [List.mem_map] at this
+    obtain ⟨r, hr, he⟩ := this
+    rw [← he, hd r hr]; rfl
+
+/-- Reading through the logging wrapper returns, read for read, the same bytes and the same
+error as the wrapped body. -/
+theorem wrapper_transparent (mt : UInt8) (id : Bytes) (rs : List ReadRes) (ctr : Nat) :
+    (bodyRun mt id ctr rs).1 = rs :=
+  bodyRun_returns mt id rs ctr
+
+/-! ## the whole statement for one logged message among concurrent ones -/
+
+theorem messageFrames_key (mt : UInt8) (id : Bytes) (hdrs : List (Bytes × Bytes)) (reads : List ReadRes) :
+    ∀ f ∈ messageFrames mt id hdrs reads, f.key = (id.take 8, mt) := by
+  intro f hf
+  simp only [messageFrames, List.mem_append, List.mem_map] at hf
+  rcases hf with ⟨kv, _, rfl⟩ | hf
+  · rfl
+  · exact (bodyRun_key mt _ reads 0 f hf).1
+
+theorem messageFrames_valid (mt : UInt8) (id : Bytes) (hdrs : List (Bytes × Bytes)) (reads : List ReadRes)
+    (hid : 8 ≤ id.length) (hh : ∀ kv ∈ hdrs, kv.1.length < two32 ∧ kv.2.length < two32)
+    (hd : ∀ r ∈ reads, r.data.length < two32) :
+    ∀ f ∈ messageFrames mt id hdrs reads, f.Valid := by
+  have hid8 : (id.take 8).length = 8 := by rw [List.length_take]; omega
+  intro f hf
+  simp only [messageFrames, List.mem_append, List.mem_map] at hf
+  rcases hf with ⟨kv, hkv, rfl⟩ | hf
+  · exact ⟨hid8, (hh kv hkv).1, (hh kv hkv).2⟩
+  · exact bodyRun_valid mt _ hid8 reads hd 0 (by decide) f hf
+
+/-- The statement of C19 for message `i` of any number of concurrently logged messages whose frames
+reach the writer in any interleaving `l`: what a reader recovers for the message's (id, type) is
+first one header frame per (pseudo-)header pair, exactly the pairs that were logged, then data
+frames with indices 0,1,2,…, whose payloads concatenate to the bytes the consumer read, frame k
+terminal iff read k hit EOF; and the consumer got from the wrapper what the body returned. -/
+theorem logged_message_roundtrip (ms : List (List Frame)) (l : List Frame) (hs : Shuffle ms l)
+    (hv : ∀ f ∈ l, f.Valid) (i : Nat) (mt : UInt8) (id : Bytes) (hdrs : List (Bytes × Bytes)) (reads : List ReadRes)
+    (hmsg : ms[i]? = some (messageFrames mt id hdrs reads))
+    (hothers : ∀ (j : Nat) (m : List Frame), j ≠ i → ms[j]? = some m → ∀ f ∈ m, f.key ≠ (id.take 8, mt))
+    (hreads : reads.length ≤ two32) :
+    let got := (readAll (encodeAll l)).1.filter (fun f => f.key == (id.take 8, mt))
+    let hs := got.filter (fun f => !f.isData)
+    let ds := got.filter Frame.isData
+    got = hs ++ ds ∧
+    hs.map Frame.nameValue = hdrs ∧
+    ds.map Frame.index = List.range reads.length ∧
+    (ds.map Frame.payload).flatten = (reads.map ReadRes.data).flatten ∧
+    ds.map Frame.terminal = reads.map (fun r => r.err == .eof) ∧
+    (bodyRun mt (id.take 8) 0 reads).1 = reads := by
+  have hgot := interleaved_messages_recovered ms l hs hv i (id.take 8, mt)
+    (by intro m hm; rw [hmsg] at hm; cases hm; exact messageFrames_key mt id hdrs reads) hothers
+  rw [hmsg] at hgot
+  simp only [Option.getD_some] at hgot
+  simp only [hgot]
+  have hH : (messageFrames mt id hdrs reads).filter (fun f => !f.isData) =
+      hdrs.map (fun kv => Frame.header mt (id.take 8) kv.1 kv.2) := by
+    simp only [messageFrames, List.filter_append]
+    rw [List.filter_eq_self.mpr, List.filter_eq_nil_iff.mpr, List.append_nil]
+    · intro f hf; simp [(bodyRun_key mt _ reads 0 f hf).2]
+    · intro f hf; rw [List.mem_map] at hf; obtain ⟨kv, _, rfl⟩ := hf; rfl
+  have hD : (messageFrames mt id hdrs reads).filter Frame.isData = (bodyRun mt (id.take 8) 0 reads).2 := by
+    simp only [messageFrames, List.filter_append]
+    rw [List.filter_eq_nil_iff.mpr, List.filter_eq_self.mpr, List.nil_append]
+    · intro f hf; exact (bodyRun_key mt _ reads 0 f hf).2
+    · intro f hf; rw [List.mem_map] at hf; obtain ⟨kv, _, rfl⟩ := hf; simp [Frame.isData]
+  rw [hH, hD]
+  refine ⟨rfl, ?_, data_indices_contiguous_from_zero mt _ reads hreads, concat_data_eq_bytes_read mt _ reads,
+    terminal_pointwise mt _ reads, wrapper_transparent mt _ reads 0⟩
+  rw [List.map_map]
+  conv => rhs; rw [← List.map_id hdrs]
+  apply List.map_congr_left
+  intro kv _; rfl
+
+/-- A request whose body is `http.NoBody` is logged as an empty body read once to end-of-file
+(one data frame: index 0, terminal, no bytes), whatever the consumer does with `http.NoBody`
+afterwards; so `logged_message_roundtrip` applies to it with `reads := noBodyReads`. -/
+theorem nobody_request_is_empty_body (id : Bytes) (hdrs : List (Bytes × Bytes)) (reads : List ReadRes) :
+    requestFrames id hdrs true reads = messageFrames 1 id hdrs noBodyReads ∧
+    (bodyRun 1 (id.take 8) 0 noBodyReads).2 = [Frame.data 1 (id.take 8) 0 true []] ∧
+    requestFrames id hdrs false reads = messageFrames 1 id hdrs reads :=
+  ⟨rfl, rfl, rfl⟩
+
+/-! ## non-vacuity: the hypotheses above are satisfiable by a concrete two-message interleaving -/
+
+def idA : Bytes := strBytes "aaaaaaaa"
+def a1 : Frame := .header 1 idA (strBytes ":method") (strBytes "GET")
+def a2 : Frame := .data 1 idA 0 false (strBytes "he")
+def a3 : Frame := .data 1 idA 1 true (strBytes "llo")
+def b1 : Frame := .header 2 idA (strBytes ":status") (strBytes "200")
+def b2 : Frame := .data 2 idA 0 true []
+/-- request and response of one exchange share the id (here with a longer id, cut to 8 bytes) -/
+theorem exA : messageFrames 1 (strBytes "aaaaaaaaXX") [(strBytes ":method", strBytes "GET")]
+    [⟨strBytes "he", .none⟩, ⟨strBytes "llo", .eof⟩] = [a1, a2, a3] := by decide
+theorem exB : messageFrames 2 (strBytes "aaaaaaaaXX") [(strBytes ":status", strBytes "200")] [⟨[], .eof⟩] = [b1, b2] := by
+  decide
+/-- a1 b1 a2 b2 a3 : an interleaving of the two messages' frames -/
+def exL : List Frame := [a1, b1, a2, b2, a3]
+
+example : Shuffle [[a1, a2, a3], [b1, b2]] exL :=
+  .cons 0 a1 [a2, a3] rfl (.cons 1 b1 [b2] rfl (.cons 0 a2 [a3] rfl (.cons 1 b2 [] rfl (.cons 0 a3 [] rfl
+    (.nil (by simp))))))
+example : ∀ f ∈ exL, f.Valid := by decide
+set_option maxRecDepth 8192 in
+example : (readAll (encodeAll exL)).1.filter (fun f => f.key == (idA, 1)) = [a1, a2, a3] := by decide
+set_option maxRecDepth 8192 in
+example : (readAll (encodeAll exL)).2 = .err .eof := by decide
+
+end Martian.Props.C19
